@@ -5,6 +5,7 @@
 EXTENDS Cache, Json
 CONSTANTS Kind, Max, LSize, AW, DW, Keys, Durs, Depth, Export, WithReopen,
           WithReput,  \* also re-put the value a key already has
+          WithBad,    \* also put a value that cannot be serialised (refused puts are no-ops)
           WithNone    \* also put Python's None (NoneV): a resident key whose value is None is still resident
 VARIABLES c, hist, last
 vars == <<c, hist, last>>
@@ -20,11 +21,16 @@ Do(o, newlast) == /\ Len(hist) < Depth
 Put(k, d) == \E v \in {Len(hist) + 1} \cup (IF WithNone THEN {NoneV} ELSE {})
                      \cup (IF WithReput /\ k \in DOMAIN last THEN {last[k]} ELSE {}) :
                  Do([op |-> "put", k |-> k, v |-> v, d |-> d], Upd(last, k, v))
+PutBad(k, d) == /\ WithBad /\ Len(hist) < Depth
+                /\ LET o == [op |-> "putbad", k |-> k, d |-> d] IN
+                   \E out \in Outcomes(c, o) : /\ c' = out[1] /\ hist' = Append(hist, o)
+                                               /\ last' = IF out[2] = RaisedV THEN last ELSE Upd(last, k, BadV)
 Get(k)    == Do([op |-> "get", k |-> k], last)
 Clear     == Do([op |-> "clear"], Empty)
 Reopen(m) == WithReopen /\ Kind = "disk" /\ Do([op |-> "reopen", max |-> m, lsize |-> LSize], last)
 
 Next == \/ \E k \in Keys, d \in Durs : Put(k, d)
+        \/ \E k \in Keys : PutBad(k, 1)
         \/ \E k \in Keys : Get(k)
         \/ Clear
         \/ \E m \in 1..Max : Reopen(m)
